@@ -220,6 +220,18 @@ def run(ctx, H):
                     if q is not None:
                         cases.append((cause, level, spread, q))
                         break
+    # every case once more with a (by itself legal) container-level `from`, which makes the macro skip the body:
+    # container-level causes must still be rejected
+    twins = []
+    for cause, level, spread, it in cases:
+        if it.get("from") or it.get("try_from"):
+            continue
+        if level in ("field", "variant") and rng.random() < 0.5:
+            continue
+        q = copy.deepcopy(it)
+        q.attrs = add_attr(q.attrs, ("from", T.String, 940, False), rng.random() < 0.5, rng)
+        twins.append((cause + "+from", level, spread, q))
+    cases += twins
     # unique names, one module per case
     lines = ["#![allow(dead_code, unused_imports, non_camel_case_types, non_snake_case, unused_variables)]",
              '#[path = "../../harness/src/ov.rs"] pub mod ov;', '#[path = "../../harness/src/out.rs"] pub mod out;',
@@ -292,7 +304,7 @@ def run(ctx, H):
     ctx.coverage.update({
         "evaluations": len(cases), "distinct_nontrivial": len({rust_reject_item(c[3]).replace(c[3].name, "X") for c in cases if c[0] != "control"}),
         "rule": "%d rejection causes (container / variant / field / shape) x {within one attribute, spread across several} applied to %d valid carrier items "
-                "(struct, struct with attributes, tagged enum, unit enum) x %d repetitions with random insertion points, plus the unpoisoned carriers as controls; "
+                "(struct, struct with attributes, tagged enum, unit enum) x %d repetitions with random insertion points, plus the unpoisoned carriers as controls, and every case once more with an additional container-level `from` (the macro then skips the body; container-level causes must still be rejected); "
                 "one crate, one `cargo check --message-format=json`, diagnostics attributed to items by line; non-trivial = distinct poisoned item" % (len(P), nbase, reps),
         "causes": sorted(by_cause), "outcome_by_cause": by_cause,
         "samples": [{"cause": cases[k][0], "rust": rust_reject_item(cases[k][3])} for k in (nbase + 1, len(cases) // 2, len(cases) - 1)],
